@@ -520,3 +520,94 @@ def w_classstate( ctx ):
     if n < 3:
         raise AnalysisError( 'W-CLASSSTATE: classes not found' )
     return res
+
+
+@rule( 'R-DECIDE', props=( 'C10', 'C02' ), floor=2 )
+def r_decide( ctx ):
+    """decide: the transition is taken iff the predicate's result is TRUTHY - the library's predicates return counts and sizes as well as
+    booleans ( the gate in front of the extended-status dfa returns .size itself ): __call__ hands the predicate's result to execute, execute
+    answers the target state for every truthy result and None for every falsy one - decided by value on 10 results."""
+    res = Result( 'R-DECIDE' )
+    src = ctx.src( AUTOMATA )
+    ex = src.get( 'decide.execute' ); ca = src.get( 'decide.__call__' )
+    TRUTH = ex.args.args[1].arg
+    wrong = []
+    for truth in ( True, False, 0, 1, 2, 7, None, 'x', '', ( 0, ) ):
+        env = { TRUTH: truth, 'self.state': 'STATE', 'self.name': 'n' }
+        try:
+            out = run_block( ex.body, env, ignore_calls=( 'log', ))
+        except NoFold as exc:
+            raise AnalysisError( 'decide.execute: not a decision fragment: %s' % exc )
+        res.cells += 1
+        want = 'STATE' if truth else None
+        if out.kind != 'return' or out.value != want:
+            wrong.append(( truth, out ))
+    if wrong:
+        res.bad( src, ex, 'decide.execute( %r ) -> %s' % ( wrong[0][0], wrong[0][1] ),
+                 'a predicate returning a count ( status_ext.size = 2 ) no longer takes its transition: the gated sub-grammar is skipped, the machine completes having consumed less than the counts it parsed announce, and the next symbols are handed to the enclosing grammar ( %d of %d results differ )' % ( len( wrong ), res.cells ))
+    else:
+        res.ok( src, ex, 'decide.execute answers the target for every truthy result, None for every falsy one ( %d results )' % res.cells )
+    seen = []
+    env = { 'self.predicate': lambda **kw: ( seen.append( sorted( kw )) or 'RESULT' ), 'self.execute': lambda t, **kw: ( 'EXEC', t ) }
+    for a in ca.args.args[1:]:
+        env[a.arg] = a.arg.upper()
+    try:
+        out = run_block( ca.body, env, ignore_calls=( 'log', ))
+    except NoFold as exc:
+        raise AnalysisError( 'decide.__call__: not a decision fragment: %s' % exc )
+    if out.kind == 'return' and out.value == ( 'EXEC', 'RESULT' ) and seen and seen[0] == [ 'data', 'machine', 'path', 'source' ]:
+        res.ok( src, ca, 'decide.__call__ evaluates the predicate on ( machine, source, path, data ) and hands its result to execute unchanged' )
+    else:
+        res.bad( src, ca, 'decide.__call__ -> %s' % ( out, ), 'the predicate\'s own result decides the transition' )
+    return res
+
+
+@rule( 'W-ITERDEL', props=( 'C14', 'C08', 'C06' ), floor=1 )
+def w_iterdel( ctx ):
+    """no loop deletes from the mapping whose LIVE view it iterates ( for k in d / d.keys() / d.items() / d.values(): ... del d[k] / d.pop( k ) /
+    d.clear() ): the next step of the iteration raises RuntimeError - behind a Forward Close that removed its connection the reply is a
+    failure status although the connection is gone.  A snapshot ( list( ... ), tuple( ... ), sorted( ... ), dict( ... ) ) is the accepted idiom."""
+    res = Result( 'W-ITERDEL' )
+    files = [ 'automata.py', 'dotdict.py', 'misc.py', 'server/network.py', 'server/enip/main.py', 'server/enip/device.py', 'server/enip/logix.py', 'server/enip/ucmm.py',
+              'server/enip/client.py', 'server/enip/get_attribute.py', 'server/enip/parser.py', 'history/files.py', 'history/times.py', 'remote/plc_modbus.py', 'remote/pymodbus_fixes.py' ]
+    loops = hits = 0
+    for rel in files:
+        if not ctx.model.exists( rel ):
+            continue
+        src = ctx.src( rel )
+        for lp in ast.walk( src.tree ):
+            if not isinstance( lp, ast.For ):
+                continue
+            loops += 1
+            it = lp.iter
+            if isinstance( it, ast.Call ) and isinstance( it.func, ast.Attribute ) and it.func.attr in ( 'items', 'keys', 'values', 'iteritems', 'iterkeys', 'itervalues' ) and not it.args:
+                base = dotted( it.func.value )
+            else:
+                base = dotted( it ) if isinstance( it, ( ast.Name, ast.Attribute )) else None
+            if not base:
+                continue
+            for n in ast.walk( lp ):
+                shrink = ( isinstance( n, ast.Delete ) and any( isinstance( t, ast.Subscript ) and dotted( t.value ) == base for t in n.targets )) \
+                    or ( isinstance( n, ast.Call ) and isinstance( n.func, ast.Attribute ) and n.func.attr in ( 'pop', 'popitem', 'clear' ) and dotted( n.func.value ) == base
+                         and it is not n )
+                if not shrink:
+                    continue
+                # a removal directly followed by leaving the loop ( break / return ) never reaches the next iteration step
+                st = n if isinstance( n, ast.stmt ) else stmt_of( src, n )
+                blk = src.parent.get( st )
+                sibs = next(( getattr( blk, f_ ) for f_ in ( 'body', 'orelse', 'finalbody' ) if isinstance( getattr( blk, f_, None ), list ) and st in getattr( blk, f_ )), [] )
+                after = sibs[sibs.index( st ) + 1:] if st in sibs else []
+                if after and isinstance( after[-1], ( ast.Break, ast.Return, ast.Raise )):
+                    continue
+                hits += 1
+                res.bad( src, n, 'the loop over the live view `%s` removes from `%s` ( %s )' % ( norm_text( it ), base, norm_text( st )[:60] ),
+                         'the iteration step after the removal raises RuntimeError ( dictionary changed size during iteration ): the request that removed an entry - a Forward Close of an open connection - is answered with a failure status although it was carried out' )
+    if loops < 100:
+        raise AnalysisError( 'W-ITERDEL: only %d loops scanned' % loops )
+    # positive fixture: the rule's own pattern must match a known-bad loop
+    fx = ast.parse( 'for k,v in d.items():\n    if v:\n        del d[k]\n' ).body[0]
+    if not any( isinstance( n, ast.Delete ) for n in ast.walk( fx )):
+        raise AnalysisError( 'W-ITERDEL fixture did not parse' )
+    if not hits:
+        res.ok( ctx.src( 'server/enip/device.py' ), ctx.src( 'server/enip/device.py' ).tree, 'no loop removes from the mapping whose live view it iterates ( %d loops scanned )' % loops )
+    return res
